@@ -16,20 +16,214 @@ def H(name, engine="incrate", tier="quick", cost=30, **kw):
     return d
 
 
+Q, T = "quick", "thorough"
+BC = dict(engine="bcast")
+CD = dict(engine="codec")
+
+BOUNDS_E1 = ("K membership records as named per harness (k1/k2/k3; default 2), every field symbolic (u8 address and generation, full u16 "
+             "incarnation, 3 states), identity/incarnation/token/connection state/probe state/cursor/config flags symbolic under Inv; "
+             "RNG = tape of 8 draws covering every outcome of every range <= 256; max_packet_size concrete per harness (32 unless named); "
+             "loop bounds: global unwind 7 plus per-loop bounds listed per sample, all guarded by unwinding assertions")
+OUT_E1 = "memberships > 3 records, > 2 indirect helpers, > 2 pending backlog entries, packets > 36 bytes, token wrap-around (256 epochs)"
+
 PROPS = {
-    "C11": {
+    "C01": {
         "level": "model_checking",
-        "bounds": "K<=2 membership records (all field values symbolic: u8 addr/generation, full u16 incarnation), probe state arbitrary under Inv, RNG tape 8 draws, max_packet_size 32",
-        "outside": "memberships > 3 records; token wrap-around (256 epochs)",
+        "bounds": "Members-level laws: arbitrary base record (or none), 2 arbitrary updates for one address (all u8 generations, all u16 incarnations, 3 states), symbolic insertion RNG; Foca level: " + BOUNDS_E1,
+        "outside": "composition over sequences longer than 2 is by the prose argument of DESIGN §4 C01 (commute + idempotent + frame); " + OUT_E1,
+        "assumptions": [STUBS],
+        "harnesses": [
+            H("c01_commute", tier=Q, cost=360, timeout_q=900, entry="Members::apply x2 in both orders", bounds="1 address, base + 2 updates"),
+            H("c01_idempotent", cost=130, entry="Members::apply twice"),
+            H("c01_monotone", cost=15, entry="Members::apply / Member::change_state / can_change"),
+            H("c01_frame", cost=100, entry="Members::apply with a second record"),
+            H("c01_exchange", cost=30, entry="Members::apply both directions"),
+            H("a_apply1_k1", cost=120, entry="Foca::apply_many(once(u))"),
+            H("a_apply1_k2", tier=T, cost=220, entry="Foca::apply_many(once(u))"),
+            H("a_apply1_k3", tier=T, cost=400, entry="Foca::apply_many(once(u))"),
+            H("a_own_state_noop", tier=T, cost=300, entry="Foca::apply_many(iter_membership_state())"),
+            H("d_gossip_upd", tier=T, cost=300, entry="Foca::handle_data(Gossip + 1 update)"),
+            H("d_ack", tier=T, cost=70, entry="Foca::handle_data(Ack): header-liveness"),
+        ],
+    },
+    "C04": {
+        "level": "other",
+        "owns": ["C04", "C10", "C11", "C12", "C01"],
+        "explanation": ("Cluster-level statement is not solver-decidable here (multi-instance BMC out of reach). Decided: every link of the "
+                        "refutation chain as a step obligation on one real instance for all values within the bounds: loss is silent and a "
+                        "failed round only suspects (t_probe), the suspect refutes with a higher incarnation in every datagram of the step "
+                        "(d_*_upd, a_apply1), any accepted datagram with a higher header incarnation clears the suspicion (d_ack/d_ping), a "
+                        "refuted/stale timeout has no effect at all (c11_timeout_iff), indirect probing absorbs the loss (t_indirect, d_fwd_ack). "
+                        "The composition over time is a prose argument (DESIGN §4 C04), not solver output."),
+        "bounds": BOUNDS_E1, "outside": "timing of dissemination for N > 2 (cluster-level); " + OUT_E1,
+        "assumptions": [STUBS],
+        "harnesses": [
+            H("c11_timeout_iff", cost=40), H("t_probe_k2", cost=60), H("d_ack", cost=70), H("d_fwd_ack", cost=105),
+            H("a_apply1_k1", cost=120), H("t_indirect_k2", cost=70),
+            H("d_ping_upd", tier=T, cost=400), H("d_gossip_upd", tier=T, cost=300), H("t_probe_k3", tier=T, cost=120),
+        ],
+    },
+    "C06": {
+        "level": "model_checking",
+        "bounds": BOUNDS_E1 + "; adversarial payloads: fixed message kind, 2..9 arbitrary trailing bytes; set_config to packet sizes 16/32/36; Config::new_lan/new_wan for every NonZeroU32 (CBMC float model)",
+        "outside": "payloads > 9 arbitrary bytes after the header; max_packet_size > 64 (u16 length truncation of 64 KiB items); user types that panic; release-profile wrapping is excluded by the overflow checks; " + OUT_E1,
+        "assumptions": [STUBS, "every Rust panic / overflow / index / debug_assert check inside foca is a C06 obligation in every harness"],
+        "harnesses": [
+            H("c06_set_config_grow", cost=60), H("c06_set_config_shrink", cost=60), H("c06_fuzz_gossip_7", cost=120),
+            H("c06_fuzz_ping_7", cost=120), H("d_ping", cost=80), H("t_probe_k2", cost=60),
+            H("c06_config_new_lan", cost=10, **CD), H("c06_config_new_wan", cost=10, **CD),
+            H("c06_set_config_same", tier=T), H("c06_fuzz_gossip_9", tier=T, cost=200), H("c06_fuzz_broadcast_5", tier=T), H("c06_fuzz_feed_2", tier=T),
+            H("c06_fuzz_turnundead_3", tier=T, cost=300), H("a_apply1_k2", tier=T, cost=220), H("d_turn_undead", tier=T, cost=300),
+            H("a_leave", tier=T), H("a_change_identity", tier=T), H("t_indirect_k2", tier=T), H("t_announce_down", tier=T, cost=120),
+            H("c07_send_pb_9", tier=T), H("c07_send_feed_failing", tier=T, cost=600, timeout_t=3000),
+        ],
+    },
+    "C07": {
+        "level": "model_checking",
+        "bounds": "private send_message on " + BOUNDS_E1 + "; packet sizes 9,10,12,13,16,17,21,22,27,32 (every boundary of header 10 / count 2 / member 5 / item 2+3); <= 2 pending updates, <= 2 pending 3-byte items; fixed-size kit codec; failing codec for Feed",
+        "outside": "variable-length identity encodings and serde codecs at the Foca level (their framing is C20); packets > 36 bytes; > 2 items per section",
+        "assumptions": [STUBS, "grammar oracle parse_datagram enumerates the finitely many layouts of the fixed-size kit format"],
+        "harnesses": [
+            H("c07_send_pb_12", cost=60), H("c07_send_pb_17", cost=75), H("c07_send_pb_22", cost=130), H("c07_send_feed_17", cost=80),
+            H("c07_send_bare_10", cost=25), H("c07_send_bcast_15", cost=25), H("d_ping", cost=80),
+            H("c07_send_pb_9", tier=T), H("c07_send_pb_10", tier=T), H("c07_send_pb_13", tier=T), H("c07_send_pb_16", tier=T), H("c07_send_pb_21", tier=T),
+            H("c07_send_pb_27", tier=T, cost=200), H("c07_send_pb_32", tier=T, cost=300), H("c07_send_feed_12", tier=T), H("c07_send_feed_22", tier=T, cost=200),
+            H("c07_send_feed_32", tier=T, cost=300), H("c07_send_feed_failing", tier=T, cost=600, timeout_t=3000), H("c07_send_bare_32", tier=T),
+            H("c07_send_bcast_14", tier=T), H("c07_send_bcast_32", tier=T), H("d_gossip_custom", tier=T), H("d_announce", tier=T, cost=300),
+            H("c17_announce_payload", tier=T),
+        ],
+    },
+    "C08": {
+        "level": "model_checking", "bounds": BOUNDS_E1, "outside": OUT_E1, "assumptions": [STUBS],
+        "harnesses": [
+            H("a_apply1_k1", cost=120), H("c11_timeout_iff", cost=40), H("d_ping", cost=80), H("a_leave", cost=40), H("a_change_identity", cost=50),
+            H("c08_accumulating_runtime", cost=60),
+            H("d_turn_undead", tier=T, cost=300), H("a_apply1_k2", tier=T, cost=220), H("a_apply1_k3", tier=T, cost=400), H("d_gossip_upd", tier=T, cost=300),
+            H("t_remove", tier=T), H("a_reuse", tier=T), H("c01_monotone", tier=T),
+        ],
+    },
+    "C09": {
+        "level": "model_checking", "bounds": BOUNDS_E1, "outside": "change_identity to another member's address (identity changes keep the address: the renew contract); " + OUT_E1, "assumptions": [STUBS],
+        "harnesses": [
+            H("a_apply1_k1", cost=120), H("d_ping", cost=80), H("t_remove", cost=70), H("c01_monotone", cost=15), H("c01_frame", cost=100), H("d_broadcast_custom", cost=65),
+            H("a_apply1_k2", tier=T, cost=220), H("d_gossip_upd", tier=T, cost=300), H("d_ping_upd", tier=T, cost=400), H("c06_fuzz_gossip_7", tier=T, cost=120), H("a_change_identity", tier=T),
+        ],
+    },
+    "C10": {
+        "level": "model_checking", "bounds": BOUNDS_E1 + "; renew() yielding next / same / losing / no identity", "outside": OUT_E1, "assumptions": [STUBS],
+        "harnesses": [
+            H("a_apply1_k1", cost=120), H("a_change_identity", cost=50), H("a_reuse", cost=12), H("a_leave", cost=40), H("c01_monotone", cost=15),
+            H("d_turn_undead", tier=T, cost=300), H("d_gossip_upd", tier=T, cost=300), H("d_ping_upd", tier=T, cost=400), H("a_apply1_k2", tier=T, cost=220),
+        ],
+    },
+    "C11": {
+        "level": "model_checking", "bounds": BOUNDS_E1, "outside": OUT_E1,
         "assumptions": [STUBS, "timers named in the obligation are ones an instance can have scheduled itself (identity not newer than the record; current-token suspicion timers exist only while Connected)"],
         "harnesses": [
-            H("c11_timeout_iff", cost=40, entry="Foca::handle_timer(ChangeSuspectToDown)", bounds="K=2, unwind 10"),
+            H("c11_timeout_iff", cost=40, entry="Foca::handle_timer(ChangeSuspectToDown)"), H("t_remove", cost=70, entry="Foca::handle_timer(RemoveDown)"),
+            H("a_apply1_k1", cost=120), H("d_ping", cost=80),
+            H("c11_timeout_iff_k3", tier=T, cost=120), H("a_apply1_k2", tier=T, cost=220), H("d_gossip_upd", tier=T, cost=300),
         ],
+    },
+    "C12": {
+        "level": "model_checking", "bounds": BOUNDS_E1 + "; fan-out 1..=2", "outside": "fan-out 3; " + OUT_E1, "assumptions": [STUBS],
+        "harnesses": [
+            H("t_probe_k2", cost=60), H("t_indirect_k2", cost=70), H("d_ack", cost=70), H("d_fwd_ack", cost=105), H("d_ping", cost=80), H("d_pingreq", cost=80),
+            H("d_indirect_ping", tier=T, cost=80), H("d_indirect_ack", tier=T, cost=80), H("t_probe_k3", tier=T, cost=120), H("t_indirect_k3", tier=T, cost=140),
+        ],
+    },
+    "C13": {
+        "level": "model_checking", "bounds": BOUNDS_E1,
+        "outside": "token wrap-around (>= 256 epoch changes between issue and delivery); the ghost multiset of outstanding timers is composed by the prose argument of DESIGN §4 C13 from the per-step count equations decided here",
+        "assumptions": [STUBS, "the runtime delivers each scheduled timer at most once"],
+        "harnesses": [
+            H("c13_stale_probe", cost=30), H("c13_stale_suspect", cost=45), H("c13_stale_gossip", cost=30), H("t_probe_k2", cost=60), H("t_announce", cost=65),
+            H("c06_set_config_same", cost=60), H("a_apply1_k1", cost=120),
+            H("c13_stale_indirect", tier=T, cost=100), H("c13_stale_announce", tier=T, cost=85), H("c13_stale_announce_down", tier=T, cost=95), H("t_gossip", tier=T, cost=200),
+            H("t_announce_down", tier=T, cost=120), H("a_leave", tier=T), H("a_change_identity", tier=T), H("a_reuse", tier=T), H("d_turn_undead", tier=T, cost=300),
+            H("c11_timeout_iff", tier=T), H("t_indirect_k2", tier=T),
+        ],
+    },
+    "C14": {
+        "level": "model_checking",
+        "bounds": "Members::next on 3/4/5 records with symbolic states (1..=3 active), any cursor (0..=5, usize::MAX, arbitrary), fully symbolic 64-bit RNG draws for the shuffle (k5: narrow tape), 5 consecutive rounds >= 2n-1",
+        "outside": "n > 3 active members; memberships > 5 records", "assumptions": [],
+        "harnesses": [
+            H("c14_next_k3", cost=40, entry="Members::next x5"), H("c14_next_k4", cost=60, entry="Members::next x5"), H("t_probe_k2", cost=60),
+            H("c14_next_k5", tier=T, cost=300), H("t_probe_k3", tier=T, cost=120),
+        ],
+    },
+    "C15": {
+        "level": "model_checking",
+        "bounds": "real broadcast.rs against the heap model: <= 3 entries, budgets 1..=255 symbolic, entry lengths concrete per instance (1..4), space 0..=14 and max_items symbolic; sender gate: " + BOUNDS_E1,
+        "outside": "> 3 backlog entries (model capacity 3); the induction from one fill to max_transmissions datagrams is the prose argument of DESIGN §4 C15",
+        "assumptions": [STUBS, "BinaryHeap model: pop returns some maximal element (std's tie-breaking is covered by nondeterminism)"],
+        "harnesses": [
+            H("bc_fill_2_a", cost=290, timeout_q=900, **BC), H("bc_add_keyed", cost=120, **BC), H("bc_budget_two_rounds", cost=100, **BC),
+            H("c07_send_pb_17", cost=75), H("a_apply1_k1", cost=120), H("c01_idempotent", cost=130),
+            H("bc_fill_1", tier=T, **BC), H("bc_fill_2_b", tier=T, cost=300, **BC), H("bc_fill_3_a", tier=T, cost=900, timeout_t=3000, **BC), H("bc_fill_3_b", tier=T, cost=900, timeout_t=3000, **BC),
+            H("bc_fill_3_c", tier=T, cost=900, timeout_t=3000, **BC), H("bc_fill_real_buffer", tier=T, **BC), H("t_gossip", tier=T, cost=200), H("c07_send_pb_22", tier=T, cost=130),
+            H("c07_send_feed_17", tier=T), H("c07_send_bare_10", tier=T), H("a_gossip", tier=T, cost=90), H("t_probe_k2", tier=T),
+        ],
+    },
+    "C16": {
+        "level": "model_checking",
+        "bounds": "real broadcast.rs against the heap model (<= 3 items, arbitrary 3x3 invalidation relation); Foca level: " + BOUNDS_E1 + "; 3-byte items, symbolic handler answer and recipient predicate",
+        "outside": "items > 6 bytes, > 2 pending items, 64 KiB length truncation", "assumptions": [STUBS],
+        "harnesses": [
+            H("bc_invalidate", cost=200, timeout_q=900, **BC), H("bc_fill_prefix_2", cost=300, timeout_q=900, **BC), H("c16_add_broadcast", cost=40), H("c16_broadcast_one", cost=120),
+            H("d_gossip_custom", cost=65), H("c07_send_bcast_15", cost=25),
+            H("bc_fill_prefix_1", tier=T, **BC), H("bc_fill_prefix_3", tier=T, cost=900, timeout_t=3000, **BC), H("c16_broadcast_empty", tier=T), H("d_broadcast_custom", tier=T),
+            H("c07_send_pb_17", tier=T), H("c07_send_pb_22", tier=T, cost=130), H("c07_send_bcast_32", tier=T), H("c07_send_bare_10", tier=T),
+        ],
+    },
+    "C17": {
+        "level": "model_checking", "bounds": BOUNDS_E1 + "; rejected inputs: oversize (13/15 bytes at limit 12), every header truncation, invalid tags, 3 kinds of undecodable member lists, one trailing byte, own identity/address sources, wrong destinations",
+        "outside": "scratch buffers (updates_buf/choice_buf/send_buf contents) are not compared: every obligation starts from empty scratch and foca clears them before use; determinism rests on safe Rust without statics/clocks (checked structurally by bin/check) plus full-state equality here",
+        "assumptions": [STUBS],
+        "harnesses": [
+            H("c17_oversize", cost=20), H("c17_bad_header", cost=30), H("c17_bad_member", cost=40), H("c17_trailing_byte", cost=30), H("d_ping", cost=80),
+            H("a_reuse", cost=12), H("c16_add_broadcast", cost=40),
+            H("a_change_identity", tier=T), H("c06_set_config_same", tier=T), H("c17_announce_payload", tier=T), H("c13_stale_probe", tier=T), H("d_gossip", tier=T), H("a_announce", tier=T),
+        ],
+    },
+    "C18": {
+        "level": "other",
+        "explanation": ("Termination of a multi-instance exchange is not model-checked (out of reach). Decided: the local facts that make every cascade finite, each for all "
+                        "values within the bounds on one real instance: bounded fan-out per delivered datagram, the reply table (each direct reply strictly lighter than its "
+                        "trigger), Gossip only in reaction to a suspicion about oneself or an identity change, at most one TurnUndead to a down sender, and a TurnUndead is "
+                        "answered with a TurnUndead only by an instance that renewed its identity in that step. The composition is the prose argument of DESIGN §4 C18."),
+        "bounds": BOUNDS_E1, "outside": "the composition over several instances; " + OUT_E1, "assumptions": [STUBS],
+        "harnesses": [
+            H("d_turn_undead", cost=300, timeout_q=900), H("d_ping", cost=80), H("d_ack", cost=70), H("d_gossip", cost=75), H("d_pingreq", cost=80), H("d_announce", cost=300, timeout_q=900),
+            H("d_indirect_ping", tier=T), H("d_indirect_ack", tier=T), H("d_fwd_ack", tier=T, cost=105), H("d_feed", tier=T), H("d_broadcast", tier=T), H("d_gossip_upd", tier=T, cost=300),
+            H("d_ping_upd", tier=T, cost=400), H("c06_fuzz_gossip_7", tier=T, cost=120), H("d_turn_undead_k2", tier=T, cost=900, timeout_t=3000),
+        ],
+    },
+    "C19": {
+        "level": "model_checking", "bounds": BOUNDS_E1 + "; Down records bearing the instance's own address (older and newer generations) allowed by Inv", "outside": OUT_E1, "assumptions": [STUBS],
+        "harnesses": [
+            H("t_announce_down", cost=120), H("t_announce", cost=65), H("t_probe_k2", cost=60), H("t_indirect_k2", cost=70), H("d_ping", cost=80), H("a_gossip", cost=90),
+            H("t_gossip", tier=T, cost=200), H("d_announce", tier=T, cost=300), H("d_turn_undead", tier=T, cost=300), H("a_leave", tier=T), H("a_change_identity", tier=T),
+            H("c16_broadcast_one", tier=T, cost=120), H("a_apply1_k2", tier=T, cost=220), H("c11_timeout_iff", tier=T),
+        ],
+    },
+    "C20": {
+        "level": "model_checking",
+        "bounds": "identity type SId{u8,u8}; every Message variant (one harness each), all incarnations/probe numbers; postcard: monolithic round-trip with one trailing byte, every buffer limit 0..=6, arbitrary byte strings <= 8 (member) / <= 12 (header); bincode: encode == reference encoding, decode(reference) == value, short buffers, arbitrary <= 6 bytes",
+        "outside": "identities owning heap data (String/Vec); inputs > 12 bytes; the mid-feed clause is decided in C07 (c07_send_feed_failing)",
+        "assumptions": ["alloc::fmt::format stubbed to an empty string (error formatting has no effect on control flow)"],
+        "harnesses": [
+            H("c20_pc_member_roundtrip", cost=30, **CD), H("c20_pc_header_pingreq", cost=60, **CD), H("c20_pc_member_short_buffer", cost=60, **CD),
+            H("c20_pc_member_arbitrary_bytes", cost=60, **CD), H("c20_bc_member_encode_matches_reference", cost=90, **CD), H("c20_bc_member_decode_reference", cost=90, **CD),
+        ] + [H("c20_pc_header_" + v, tier=T, cost=60, **CD) for v in ["ping", "ack", "indirect_ping", "indirect_ack", "fwd_ack", "announce", "feed", "gossip", "broadcast", "turn_undead"]]
+          + [H("c20_bc_header_" + v, tier=T, cost=200, timeout_t=3000, **CD) for v in ["ping", "pingreq", "fwd_ack", "announce", "turn_undead"]]
+          + [H("c20_pc_header_arbitrary_bytes", tier=T, cost=200, **CD), H("c20_bc_member_short_buffer", tier=T, cost=100, **CD), H("c20_bc_member_arbitrary_bytes", tier=T, cost=100, **CD),
+             H("c07_send_feed_failing", tier=T, cost=600, timeout_t=3000), H("c07_send_pb_9", tier=T)],
     },
 }
 
-DEV = ["c13_stale_probe","c13_stale_indirect","c13_stale_suspect","c13_stale_announce","c13_stale_gossip","c13_stale_announce_down",
-       "t_probe_k2","t_probe_k3","t_indirect_k2","t_indirect_k3","t_remove","t_announce","t_gossip","t_announce_down"]
+DEV = ["c07_send_feed_17","c07_send_pb_17","c07_send_bare_10","c07_send_bcast_15","c07_send_pb_22","c07_send_feed_failing"]
 PROPS["DEV"] = {"level": "model_checking", "harnesses": [H(n) for n in DEV]}
 
 HOOK_COMMITS = ["2dd5aa0"]
